@@ -1,14 +1,14 @@
 SPECIFICATION Spec
 CONSTANTS
   L = 20
-  AggHdr = 1
+  AggHdr = 2
   PerUnit = 2
-  FuHdr = 2
-  Consumed = 1
-  SingleLE = TRUE
+  FuHdr = 3
+  Consumed = 2
+  SingleLE = FALSE
   MaxUnits = 3
   LaterBatch = TRUE
-  SizeSet <- SizesAll
+  SizeSet <- SizesAll265
 INVARIANT SizeOK
 INVARIANT Conserved
 INVARIANT NonEmpty
